@@ -166,8 +166,16 @@ Proof. unfold run_phases. induction ps; simpl; auto. Qed.
 Definition kept (cl : list Z) (B : list task) : list task := snd (fst (intake cl B)).
 
 (* what station c lets the outside see about task u *)
+Lemma proj_rel_em u rel e0 : proj u (rel_em rel e0) = rel_em rel (proj u e0).
+Proof.
+  unfold rel_em. induction e0 as [|e r IH]; simpl; [reflexivity|].
+  destruct (emi_uid e =? u) eqn:E; simpl.
+  - rewrite <- IH. destruct rel; simpl; [rewrite E|]; reflexivity.
+  - destruct rel; simpl; [rewrite E|]; exact IH.
+Qed.
+
 Definition seen (c : comp) (P : params) (canceled raised : bool) (L : list task) : list emi :=
-  if canceled then map (fun t => pubf (cancel t)) L
+  if canceled then rel_em (releases c) (map (fun t => pubf (cancel t)) L)
   else run_phases (pre_ph c P) L
        ++ (if raised then map (fun t => pubf (fail t)) L else run_phases (post_ph c P) L).
 
@@ -183,7 +191,7 @@ Proof.
     by (intros; apply (phases_local c P); apply in_or_app; left; assumption).
   assert (Hpost : forall ph, In ph (post_ph c P) -> local ph)
     by (intros; apply (phases_local c P); apply in_or_app; right; assumption).
-  destruct (raises c P bf K); simpl; rewrite !proj_app, Bq, proj_run_phases by assumption.
+  destruct (raises c P bf K); simpl; rewrite !proj_app, proj_rel_em, Bq, proj_run_phases by assumption.
   - rewrite proj_map_local by reflexivity. rewrite A.
     destruct (zmem u cl); simpl.
     + rewrite !run_phases_nil. simpl. rewrite ?app_nil_r. reflexivity.
@@ -402,8 +410,9 @@ Lemma single_step c thr u d f canceled raised creq bulkf :
 Proof.
   intros t0 Hr Hc Hb es.
   destruct canceled.
-  { right. specialize (Hc eq_refl). subst creq es. unfold finished, fin_sts, seen. cbn.
-    rewrite canon_uid. cbn. rewrite Z.eqb_refl. cbn. repeat split; try discriminate; reflexivity. }
+  { right. specialize (Hc eq_refl). subst creq es. unfold finished, fin_sts, seen, rel_em.
+    destruct (releases c); cbn;
+      rewrite canon_uid; cbn; rewrite Z.eqb_refl; cbn; repeat split; try discriminate; reflexivity. }
   destruct raised.
   { right. destruct (Hb eq_refl) as [-> ->]. subst es. unfold finished, fin_sts, seen. cbn.
     rewrite Z.eqb_refl. cbn. repeat split; try discriminate; try reflexivity; try apply orb_true_r. }
@@ -860,6 +869,41 @@ Theorem station_isolation c P cl B bf u :
   proj u (snd (work_cb c P cl B bf)) = seen c P (zmem u cl) false (only u B).
 Proof.
   intros Hnd Hc. rewrite work_cb_proj by assumption. destruct c; try discriminate; reflexivity.
+Qed.
+
+(* ---- the executor station releases every task it receives exactly once ---- *)
+Lemma only_single B t : NoDup (map t_uid B) -> In t B -> only (t_uid t) B = [t].
+Proof.
+  induction B as [|a r IH]; intros Hnd Hin; [contradiction|].
+  inversion Hnd as [|? ? Hna Hnr]; subst. simpl. destruct Hin as [->|Hin].
+  - rewrite Z.eqb_refl. f_equal. apply only_nil_notin. exact Hna.
+  - destruct (t_uid a =? t_uid t) eqn:E.
+    + apply Z.eqb_eq in E. exfalso. apply Hna. rewrite E. apply in_map. exact Hin.
+    + apply IH; assumption.
+Qed.
+
+Definition releases_of (es : list emi) : nat :=
+  length (filter (fun e => match e with Unsched _ => true | _ => false end) es).
+
+(* a task canceled by the cancel filter at the executor's intake is published
+   CANCELED and then released (Popen.is_canceled) *)
+Theorem aexec_intake_cancel_releases P cl B bf t :
+  NoDup (map t_uid B) -> In t B -> zmem (t_uid t) cl = true ->
+  proj (t_uid t) (snd (work_cb CAExec P cl B bf)) = [pubf (cancel t); Unsched (t_uid t)].
+Proof.
+  intros Hnd Hin Hm. rewrite work_cb_proj by assumption. rewrite Hm, only_single by assumption. reflexivity.
+Qed.
+
+(* whatever happens to a task at the executor station -- canceled at the
+   intake, no launcher, launch error, exit, cancel, timeout -- its slots are
+   released exactly once *)
+Theorem aexec_releases_once P cl B bf t :
+  NoDup (map t_uid B) -> In t B ->
+  releases_of (proj (t_uid t) (snd (work_cb CAExec P cl B bf))) = 1%nat.
+Proof.
+  intros Hnd Hin. rewrite work_cb_proj by assumption. rewrite only_single by assumption.
+  unfold seen. destruct (zmem (t_uid t) cl); [reflexivity|].
+  cbn. destruct (f_exec (t_f t)); reflexivity.
 Qed.
 
 (* the full statement fails: a bulk-level exception at the tmgr scheduler
